@@ -163,8 +163,36 @@ def make_deck(ch, dims, skew, by_rpp, arr_mode):
         d.add_surface(61, 'px', [3.3])
         d.add_cell(HCell(40, -61, fill=1, u=4))
         d.add_cell(HCell(41, 61, mat=2, rho='-7.8', u=4))
-    d.add_cell(HCell(19, ('^', 10), imp=ch.choose('imp19', [1, 0])))
-    d.add_cell(lat)
+    # optionally a second lattice: a LIKE 20 BUT copy moved by a TRCL into its own container, with its own
+    # --lattice ranges when the fill is a single universe
+    replica = ch.choose('replica', ['none', 'like'])
+    if replica == 'like':
+        m2 = refsem.Motion((30.0, 0.0, 0.0))
+        lat2 = HCell(21, expr, mat=4, rho='-1.5', u=6, lat=1)
+        lat2.base = base
+        lat2.trcl = Tr(m2, 'inline3')
+        lat2.filltr = lat.filltr
+        lat2.fill = lat.fill
+        lat2.single = lat.single
+        if arr_mode == 'single':
+            rng2 = [(lo - 1, hi) if k == 0 else (lo, hi) for k, (lo, hi) in enumerate(rng)] + [(0, 0)] * ntriv
+            lat2.ranges = rng2
+            n2 = int(np.prod([hi - lo + 1 for lo, hi in rng2]))
+            lat2.array = [lat.array[0]] * n2
+        else:
+            lat2.ranges = lat.ranges
+            lat2.array = list(lat.array)
+        d.add_surface(11, 'px', [30.0 + box[0]]); d.add_surface(12, 'px', [30.0 + box[1]])
+        e11 = ('*', ('*', 11, -12), ('*', 3, -4))
+        if cont == 'large-z' or dims == 3:
+            e11 = ('*', e11, ('*', 5, -6))
+        d.add_cell(HCell(11, e11, fill=6))
+        d.add_cell(HCell(19, ('*', ('^', 10), ('^', 11)), imp=ch.choose('imp19', [1, 0])))
+        d.add_cell(lat)
+        d.add_cell(lat2)
+    else:
+        d.add_cell(HCell(19, ('^', 10), imp=ch.choose('imp19', [1, 0])))
+        d.add_cell(lat)
     # filler universes (asymmetric about the element)
     d.add_surface(41, 'px', [0.3]); d.add_surface(42, 'py', [0.2])
     # the universes vary in all three directions (a spurious displacement along any axis must be visible)
@@ -181,10 +209,13 @@ def make_deck(ch, dims, skew, by_rpp, arr_mode):
     for c in d.hcells:
         c.kw_order = kwo
     d.finish()
+    if replica == 'like':
+        d.cells = ['21 like 20 but trcl=(30 0 0) u=6' if c.startswith('21 ') else c for c in d.cells]
     if arr_mode == 'single':
         # FILL=n on the card, ranges on the command line
-        card = lat.card()
         d.options = ['--lattice', '20,' + ','.join('%d:%d' % r for r in rng_card)]
+        if replica == 'like':
+            d.options += ['--lattice', '21,' + ','.join('%d:%d' % r for r in lat2.ranges)]
     return d
 
 
@@ -254,7 +285,7 @@ def check_state(scn, st, corrupt=None, result=None):
                        msg='conversion failed: %s\n%s\n%s' % (r.brief(), st.options, st.deck_text),
                        out='err:' + r.exc_type)
     t4 = t4read.parse(r.t4)
-    cls, msg = oracle.structural_cls(t4)
+    cls, msg = oracle.structural_cls(t4, st.options)
     if cls:
         return verdict(False, st, cls=cls, msg=msg + '\n' + st.deck_text + r.body[:1500], out=sha(r.body))
     P, info = oracle.probe_points(t4, st.all_ref_planes())
